@@ -6,7 +6,9 @@ mod common;
 mod gen;
 mod names_drv;
 mod rdata_drv;
+mod reader_drv;
 mod server_drv;
+mod writer_drv;
 
 fn main() {
     let args: Vec<String> = std::env::args().skip(1).collect();
@@ -18,6 +20,8 @@ fn main() {
         "server" => server_drv::main(&args[1..]),
         "codes" => codes_drv::main(&args[1..]),
         "rdata" => rdata_drv::main(&args[1..]),
+        "reader" => reader_drv::main(&args[1..]),
+        "writer" => writer_drv::main(&args[1..]),
         "names" => names_drv::main(&args[1..]),
         d => {
             eprintln!("unknown driver {}", d);
